@@ -81,7 +81,7 @@ def guarded_counts(sites, syn):
     pars = {}
     for sdict in sites:
         is_idx = sdict["cls"] == "Vec[]" and sdict["step"].endswith("[lit]")
-        is_acc = sdict["cls"] in ("Option::unwrap", "Option::expect", "Result::unwrap", "Result::expect") and re.match(r"^\.(as|into|try_into)_\w+\(\)$", sdict["step"] or "")
+        is_acc = sdict["cls"] in ("Option::unwrap", "Option::expect", "Result::unwrap", "Result::expect") and re.match(r"^\.((as|into|try_into)_\w+|try_into)\(\)$", sdict["step"] or "")
         if not (is_idx or is_acc):
             continue
         sf = syn.fn_at(sdict["file"], sdict["l"])
@@ -99,7 +99,7 @@ def guarded_counts(sites, syn):
                 r = n["r"]
                 if not (r.get("k") == "mcall" and "." + r["m"] + "()" == sdict["step"]):
                     continue
-                g = accessor_guard(n, par)
+                g = array_conv_guard(n, par) if r["m"] == "try_into" else accessor_guard(n, par)
             else:
                 continue
             d = out.setdefault(sdict["key"], {"guarded": 0, "sites": 0})
@@ -202,6 +202,53 @@ def index_guard(node, par):
                                 n, op = _lv(cc["rhs"]), cc["op"]
                                 if (op == "<" and n > k) or (op == "<=" and n >= k) or (op == "!=" and n > k) or (op == "==" and n <= k and False):
                                     return f"after `if {show(cc)} {{ return }}`"
+        if kind in ("closure", "item_fn"):
+            return None
+        cur = p
+
+
+def array_conv_guard(node, par):
+    """`let [a, b]: [T; N] = X.try_into().unwrap()` converts a Vec into a fixed-size array and fails unless X.len() == N exactly:
+    is it dominated by `if X.len() != N .. { return }` (a disjunct of a diverging test) or inside `if X.len() == N`?"""
+    import guards
+    from synq import lit_val as _lv
+    acc = node["r"]
+    var = show(acc["r"], maxdepth=6)
+    # N from the binding: array pattern or `[T; N]` annotation of the enclosing let
+    cur, n_want = node, None
+    while id(cur) in par and n_want is None:
+        cur = par[id(cur)]
+        if cur.get("k") == "local":
+            pat = cur["pat"]
+            if pat.get("k") == "p_ident" and pat.get("sub") is not None:
+                pat = pat["sub"]
+            if pat.get("k") in ("p_slice", "p_tuple", "p_array") and isinstance(pat.get("e"), list):
+                n_want = len(pat["e"])
+            m_ = re.search(r";\s*(\d+)\s*\]", str(cur.get("ty") or show(cur["pat"])))
+            if m_:
+                n_want = int(m_.group(1))
+            break
+    if n_want is None:
+        return None
+    lenexpr = f"{var}.len()"
+    cur = node
+    while True:
+        p = par.get(id(cur))
+        if p is None:
+            return None
+        kind = p.get("k")
+        if kind == "if":
+            in_then = p.get("t") is cur or guards._contains(p.get("t"), cur)
+            for cc in conj(p["c"]):
+                if in_then and cc.get("k") == "bin" and cc["op"] == "==" and show(cc["lhs"]) == lenexpr and _lv(cc["rhs"]) == n_want:
+                    return f"if {show(cc)}"
+        if kind == "block":
+            idx = next((i for i, st in enumerate(p["s"]) if st is cur or guards._contains(st, cur)), None)
+            for st in p["s"][:idx or 0]:
+                if st.get("k") == "if" and st.get("e") is None and guards._diverges(st["t"]):
+                    for cc in disj(st["c"]):
+                        if cc.get("k") == "bin" and cc["op"] == "!=" and show(cc["lhs"]) == lenexpr and _lv(cc["rhs"]) == n_want:
+                            return f"after `if {show(cc)} {{ return }}`"
         if kind in ("closure", "item_fn"):
             return None
         cur = p
